@@ -35,7 +35,17 @@ MANIFEST = dict(
          "level renderings; default and nested-namespace environments); implementation-only oracles: real-parser round trip "
          "(also after the generate phase, comparing attribute values), g++ is_same of decltype(original) vs the rendering (also "
          "with asgn_value=True) and vs cxxMeaning, g++ value comparison of every recorded array-extent expression tree with its "
-         "source text (grouping/associativity), gcc type compatibility of the C rendering.",
+         "source text (grouping/associativity), gcc type compatibility of the C rendering. AST-rewriting operations "
+         "(Model/Rewrite.lean: set_return_to_void, _as_arg, result_as_arg, set_type/instantiate as functions on Decl, crash sites "
+         "included): setReturnToVoid_resets_type (nothing of the old result type is left, template arguments included, for every "
+         "declaration), setReturnToVoid_roundtrip (the rewritten declaration parses back from its rendering whatever the old result "
+         "type was), resultAsArg_roundtrip_partial (same after result_as_arg with a fresh name, on WF), asArg_keeps_type, "
+         "setType_keeps_rest; tied to the real methods by the driver op `rewrite` on a systematic family (templated / string / "
+         "char / built-in results x pointer chains x cv x parameter lists) and on generated function declarations; "
+         "implementation-only oracles after each rewrite: real-parser round trip of gen_decl, g++ is_same with "
+         "`void name(params..., R* arg)` built by the compiler from the original, result type of the prototype renderings is void; "
+         "the g++/gcc is_same oracles also compare every declaration rendered under another name (name='SH_x') and without a "
+         "name (name=None), nested declarators (pointer/reference to function and to array) included.",
     design="3 C09",
     note="Trusted: Lean kernel (axioms propext, Classical.choice, Quot.sound); the hand-written models Model/Decl.lean, Token.lean, "
          "CxxMeaning.lean, validated on generated inputs only (corpus, 981 systematic parameter-list shapes, 672 qualified names "
@@ -51,7 +61,8 @@ MANIFEST = dict(
          "arguments), roundtrip:expr-signed-operand (PrintNode's deliberate parentheses around a signed operand re-parse as a "
          "ParenExpr node). Fixed: all SEMANTIC disagreements with C++ (name-is-a-type c918081 + 02af1f3, typename-plus-specifier "
          "462fc2a, '(' as parameter list vs nested declarator 02af1f3: int (), T *(), int *(int), vector<int> (string)), the "
-         "decorated lone void parameter (f6e47c8) and attributes that were accepted but never rendered (d5f336d).",
+         "decorated lone void parameter (f6e47c8), attributes that were accepted but never rendered (d5f336d) and the empty "
+         "parentheses of a nested declarator rendered without its name (`int (value)` with name=None gave `int ()`, 314c483).",
     technique="Lean 4 proof by induction over the declaration (printer/parser round trip; printer-side induction for the reference "
               "semantics) + differential correspondence model/implementation + g++/gcc oracles",
 )
@@ -71,6 +82,12 @@ THEOREMS = {
         "Shroud.Decl.asgn_value_keeps_const_behind_indirection",
         "Shroud.Decl.asgn_value_drops_const_of_values",
         "Shroud.Decl.genArgK_asgn_value_indirect",
+        "Shroud.Decl.defaultEnv_voidT",
+        "Shroud.Decl.setReturnToVoid_resets_type",
+        "Shroud.Decl.setReturnToVoid_roundtrip",
+        "Shroud.Decl.resultAsArg_roundtrip_partial",
+        "Shroud.Decl.asArg_keeps_type",
+        "Shroud.Decl.setType_keeps_rest",
     ]
 }
 
@@ -802,8 +819,8 @@ def rewrite_phase(ctx, cases, ok, thorough):
                 continue          # a template keeps its arguments by design; `void` is only a result type
             if op == "result" and any(p.name == arg for p in (a.params or [])):
                 continue          # precondition of result_as_arg: the new argument's name is not a parameter's
-            if op == "void" and a.name is None:
-                continue          # precondition of set_return_to_void: a named (function) declarator
+            if op in ("void", "result") and a.name is None:
+                continue          # precondition of set_return_to_void / result_as_arg: a named (function) declarator
             stat["roundtrip_checked"] += 1
             try:
                 rendered = b.gen_decl()
@@ -822,7 +839,8 @@ def rewrite_phase(ctx, cases, ok, thorough):
                 ctx.fail("rewrite-roundtrip:" + label.split(":")[0], "after %s the declaration %r renders as %r; %s" % (
                     label, text, rendered, why), {"kind": "rewrite", "decl": text, "op": label})
             if op == "result" and b.params is not None and "+" not in text and not text.rstrip().endswith("const"):
-                gxx_cases.append((text, arg, a, b))
+                if a.name is not None:
+                    gxx_cases.append((text, arg, a, b))
     ctx.note("rewrite_oracle", {k: stat[k] for k in ("declarations", "rewrites", "roundtrip_checked", "roundtrip_failures")})
     dc.guarded(ctx, "oracle-rewrite-gxx", rewrite_gxx, ctx, gxx_cases[: (4000 if thorough else 1200)])
     if not (drv.available() and ok):
@@ -1249,7 +1267,8 @@ def run(ctx):
     r = common.rng("c09")
     ctx.cov["trusted_base"] = [
         "Lean 4.33.0 kernel; axioms within {propext, Classical.choice, Quot.sound}",
-        "hand-written models Model/Decl.lean, Token.lean, CxxMeaning.lean, tied by differential correspondence (drv_decl)",
+        "hand-written models Model/Decl.lean, Token.lean, CxxMeaning.lean, Rewrite.lean, tied by differential correspondence (drv_decl; "
+        "ops parse, toks, kw, meaning, rewrite)",
         "Gen/DeclTables.lean regenerated from typemap.initialize(), canonical_typemap, token_specification and the library symbols "
         "(default and nested-namespace environment)",
         "tokenisation of the test inputs by the real regex (the character-level tokenizer model belongs to C17); Python "
@@ -1259,8 +1278,11 @@ def run(ctx):
     ]
     ctx.cov["rule"] = ("corpus + grammar-directed declarations (depth-bounded) + single-token mutations + random token sequences; "
                        "exact comparison of outcome class, diagnostic, structure and five renderings; non-trivial = distinct accepted "
-                       "structures and distinct diagnostics")
+                       "structures and distinct diagnostics; rewrite family: result kinds x pointer chains x cv x parameter lists x "
+                       "{set_return_to_void, _as_arg, result_as_arg, set_type, instantiate}, every rewritten declaration compared "
+                       "with the model and re-parsed from its own rendering; renamed / unnamed renderings of every g++ candidate")
     ctx.assumptions += [
+        "result_as_arg is exercised with argument names that are not parameter names (its precondition); set_return_to_void on named declarators",
         "the round-trip theorem is about the Lean model on its WF domain; the model is validated against declast.py on generated inputs only",
         "clauses (1),(2) are proved for Shroud's own renderings (canonical token lists); for arbitrary accepted inputs agreement "
         "with C++ is checked with g++ and by comparing cxxMeaning with denote(parse) on the generated inputs, not proved",
